@@ -56,7 +56,7 @@ def closure (pids : List Nat) (fuel : Nat) (ss : List St) : List St :=
   | fuel + 1 =>
     let ss := ss.map (eager pids)
     let next := ss.flatMap (fun s => (branching pids).filterMap (step s))
-    let all := dedup pids (ss ++ next.map (eager pids))
+    let all := (dedup pids (ss ++ next.map (eager pids))).map (St.compact pids)
     if all.length = ss.length then all else closure pids fuel all
 
 def parseFlav (s : String) : Except String Flav :=
@@ -104,7 +104,7 @@ def handle (j : Json) : Except String Json := do
   for e in evs do
     let cl := closure pids 64 states
     maxStates := max maxStates cl.length
-    let next := dedup pids (cl.filterMap (fun s => step s e))
+    let next := (dedup pids (cl.filterMap (fun s => step s e))).map (St.compact pids)
     if next.isEmpty then
       return Json.mkObj [("accepted", Json.bool false), ("rejected_at", Json.num idx), ("states", Json.num maxStates)]
     states := next
